@@ -72,16 +72,16 @@ class Sym:
     def of_operand(self, body, op, depth=0):
         if op.place is None:
             return self._const(op)
-        return self.of_place(body, op.place.local, norm_path(op.place), depth)
+        return self.of_place(body, op.place.local, norm_path(op.place), depth, at=op.blk)
 
-    def of_place(self, body, local, path=(), depth=0):
-        key = (body.path, local, tuple(path))
+    def of_place(self, body, local, path=(), depth=0, at=None):
+        key = (body.path, local, tuple(path), at)
         if key in self._memo:
             return self._memo[key]
         if depth > MAX_DEPTH:
             return ("unknown", "depth")
         self._memo[key] = ("unknown", "cycle")
-        t = self._eval(body, local, tuple(path), depth)
+        t = self._eval(body, local, tuple(path), depth, at)
         self._memo[key] = t
         return t
 
@@ -100,15 +100,15 @@ class Sym:
             return ("const_item", j["uneval"])
         return ("const", "<%s>" % j.get("ty"))
 
-    def _eval(self, body, local, path, depth):
+    def _eval(self, body, local, path, depth, at=None):
         prog = self.prog
-        origins = prog.resolve_lifted(body, local, path, IDENT)
+        origins = prog.resolve_lifted(body, local, path, IDENT, at=at)
         terms = []
         for o in sorted(origins, key=lambda o: repr(o.key())):
             terms.append(self._of_origin(o, depth))
         # PathBuf-like local mutated by push(): fold pushes
         idx = prog.idx(body)
-        pushes = self._pushes(body, local, path, depth) if not path else None
+        pushes = self._pushes(body, local, path, depth, at) if not path else None
         uniq = []
         for t in terms:
             if t not in uniq:
@@ -118,19 +118,21 @@ class Sym:
             return ("pushed", base, tuple(pushes))
         return base
 
-    def _pushes(self, body, local, path, depth):
+    def _pushes(self, body, local, path, depth, at=None):
         """If `local` (a PathBuf/String/Vec) receives push()-style calls, return seg terms in
         dominance order; None if there are none."""
         prog = self.prog
         idx = prog.idx(body)
         # find the storage locals this value aliases (identity), then mutating calls on them
-        _, visited = idx._resolve(local, path, IDENT, want_visited=True)
+        _, visited = idx._resolve(local, path, IDENT, want_visited=True, at=at)
         mut = idx.mutated_by()
         sites = {}
-        for (l, p) in visited:
+        for (l, p, _a) in visited:
             for (blk, mp, ai) in mut.get(l, []):
                 t = body.blocks[blk].term
                 if ai != 0 or t.callee is None:
+                    continue
+                if at is not None and not idx.cfg.can_reach(blk, at):
                     continue
                 if t.callee.path in MUTATORS:
                     sites[blk] = t
@@ -221,7 +223,7 @@ class Sym:
             return ("op", "cast:" + rv.j["cast"], (self.of_operand(o.body, rv.ops[0], depth + 1),), ())
         if k == "discr":
             pl = o.info.place
-            return ("op", "discr", (self.of_place(o.body, pl.local, norm_path(pl), depth + 1),), ())
+            return ("op", "discr", (self.of_place(o.body, pl.local, norm_path(pl), depth + 1, at=o.blk),), ())
         if k == "repeat":
             return ("op", "repeat", (self.of_operand(o.body, o.info.ops[0], depth + 1),), ())
         if k == "resume":
